@@ -263,5 +263,44 @@ func TestC09(t *testing.T) {
 		Assumptions: []string{"exact kernel (internal/exact)", "float64 brute force is accurate to 1e-12 relative for the dense family (integer inputs)"},
 		Gen:         c09Gen,
 		Check:       c09Check,
+		Enumerate:   c09Enumerate,
 	})
+}
+
+// c09Enumerate: wide operands (127..257 members in a row) where only one
+// late member (the last, or the one before) decides the answer; B never lies
+// inside a polygon of A, so the float brute force over boundaries is the oracle.
+func c09Enumerate(cx *h.Ctx, yield func(C09Case)) []string {
+	for _, k := range []int{127, 128, 129, 255, 256, 257} {
+		for _, typ := range []string{gm.MultiPoint, gm.MultiLineString, gm.MultiPolygon, gm.GeometryCollection} {
+			a := gm.G{T: typ}
+			for i := 0; i < k; i++ {
+				x := float64(10 * i)
+				switch typ {
+				case gm.MultiPoint:
+					a.Mem = append(a.Mem, gm.G{T: gm.Point, Co: gm.Fs(x, 0)})
+				case gm.MultiLineString:
+					a.Mem = append(a.Mem, gm.G{T: gm.LineString, Co: gm.Fs(x, 0, x+4, 4)})
+				case gm.MultiPolygon:
+					a.Mem = append(a.Mem, gm.G{T: gm.Polygon, Rings: [][]gm.F{gm.Fs(x, 0, x+4, 0, x+4, 4, x, 4, x, 0)}})
+				default:
+					a.Mem = append(a.Mem, []gm.G{{T: gm.Point, Co: gm.Fs(x, 0)}, {T: gm.LineString, Co: gm.Fs(x, 0, x+4, 4)},
+						{T: gm.Polygon, Rings: [][]gm.F{gm.Fs(x, 0, x+4, 0, x+4, 4, x, 4, x, 0)}}}[i%3])
+				}
+			}
+			for _, j := range []int{k - 1, k - 2} {
+				x := float64(10 * j)
+				for _, b := range []gm.G{
+					{T: gm.Point, Co: gm.Fs(x, 0)},                  // on member j
+					{T: gm.Point, Co: gm.Fs(x, -3)},                 // 3 below member j
+					{T: gm.LineString, Co: gm.Fs(x-2, 2, x+1, -1)},  // crosses the lower left corner region of member j
+					{T: gm.LineString, Co: gm.Fs(x-3, -7, x+9, -2)}, // passes below
+					{T: gm.MultiPoint, Mem: []gm.G{{T: gm.Point, Co: gm.Fs(-50, -50)}, {T: gm.Point, Co: gm.Fs(x, -1)}}},
+				} {
+					yield(C09Case{PairCase: PairCase{A: a, B: b, Family: "wide"}, C: gm.G{T: gm.Point}, Dense: true})
+				}
+			}
+		}
+	}
+	return []string{"operands of 127..257 members in a row (MultiPoint, MultiLineString, MultiPolygon, mixed collection) against a small geometry on / near / crossing one of the last two members"}
 }
